@@ -130,3 +130,26 @@ Proof.
   - split; [constructor|reflexivity].
   - split; [constructor; [discriminate|assumption]| cbn [app]; f_equal; assumption].
 Qed.
+
+Lemma take_0_nil {A} (l : list A) : take 0 l = []. Proof. reflexivity. Qed.
+
+(* one Read: either the end (no bytes, error from the tail) or a non-empty prefix *)
+Lemma read1_props_u k s : wf_src s -> 0 < k ->
+  let '((b, e), s') := read1 k s in
+  match e with
+  | Some e => b = [] /\ flat s = [] /\ e = (match tl s with TEOF => EEOF | TFail => EFail end)
+  | None => b <> [] /\ flat s = b ++ flat s' /\ wf_src s' /\ tl s' = tl s
+  end.
+Proof.
+  intros Hwf Hk. unfold read1, flat, wf_src in *. destruct (chunks s) as [|c cs] eqn:E.
+  - repeat split; reflexivity.
+  - inversion Hwf as [|? ? Hc Hcs]; subst.
+    destruct (k <? len c) eqn:Ek; cbn [chunks tl concat].
+    + repeat split.
+      * intro H. apply (f_equal len) in H. rewrite len_take in H. unfold len in H at 2. simpl in H.
+        assert (len c <> 0) by (destruct c; [contradiction|rewrite len_cons; lia]). lia.
+      * rewrite app_assoc. rewrite take_drop. reflexivity.
+      * constructor; [|assumption]. intro H. apply (f_equal len) in H. rewrite len_drop in H.
+        unfold len in H at 2. simpl in H. lia.
+    + repeat split; assumption.
+Qed.
